@@ -193,7 +193,7 @@ def behav(g, kind, d, e):
 
 def build(tier, seed):
     quick = tier == "quick"
-    tmo = 90 if quick else 900
+    tmo = 90 if quick else 300
     m = Module("c15_literal").pre(SETUP)
     k = 4 if quick else 6
     for strict in (True, False):
